@@ -858,3 +858,68 @@ def replay(ctx, rep):   # noqa: F811
     if rep.get('case', {}).get('scenario') == 'slice':
         return common.scenario_replay(ctx, rep, {'slice': slice_scenarios})
     return _replay2(ctx, rep)
+
+
+# ---------------------------------------------------------------------------------------------------------------
+# bulk calls whose ARGUMENT is another kind of iterable than a list: a tuple, a str (its characters, as for a list),
+# the empty str - on many-valued STRING attributes of the four declarations
+# ---------------------------------------------------------------------------------------------------------------
+def bulk_argument_scenarios(ctx, out):
+    common.use_repo()
+    from pyecore.ecore import EClass, EAttribute, EString
+    rng = common.rng_for(ctx.seed, 'C04:bulkarg')
+    n = 120 if ctx.tier != 'thorough' else 3000
+    cnt = 0
+    kinds = {}
+    for it in range(n):
+        ordered, unique = rng.random() < 0.5, rng.random() < 0.5
+        A = EClass('A')
+        A.eStructuralFeatures.append(EAttribute('names', EString, upper=-1, ordered=ordered, unique=unique))
+        a = A()
+        L = []
+        hist = [['declare', ordered, unique]]
+        bad = None
+        for step in range(rng.randrange(1, 6)):
+            kind = rng.choice(['list', 'tuple', 'str', 'str', 'empty-str'])
+            how = rng.choice(['extend', 'iadd'] + (['update'] if unique else []))
+            letters = [rng.choice('abcx') for _ in range(rng.randrange(1, 4))]
+            arg = {'list': letters, 'tuple': tuple(letters), 'str': ''.join(letters), 'empty-str': ''}[kind]
+            hist.append([how, kind, arg if isinstance(arg, str) else list(arg)])
+            kinds[kind] = kinds.get(kind, 0) + 1
+            try:
+                c = a.names
+                if how == 'iadd':
+                    c += arg
+                else:
+                    getattr(c, how)(arg)
+            except Exception as e:  # noqa
+                bad = f'{how}({arg!r}) raised {type(e).__name__}: {e}'
+                break
+            for x in arg:                                   # the plain list: one element per item of the iterable
+                if not (unique and x in L):
+                    L.append(x)
+            cnt += 1
+            if list(a.names) != L:
+                bad = f'after {how}({arg!r}): feature holds {list(a.names)}, a plain list {L}'
+                break
+        if bad:
+            out.fail({'property': 'C04', 'clause': 'bulk-argument-kind', 'culprit': hist[-1][0], 'qualifiers': [hist[-1][1]],
+                      'shape': {'kind': 'attr', 'unique': unique}}, bad,
+                     {'scenario': 'bulkarg', 'seed': ctx.seed, 'tier': ctx.tier, 'history': hist})
+    out.coverage['bulk_argument_calls'] = cnt
+    out.coverage['bulk_argument_kinds'] = kinds
+
+
+_run3 = run
+_replay3 = replay
+
+
+def run(ctx, out):   # noqa: F811
+    _run3(ctx, out)
+    bulk_argument_scenarios(ctx, out)
+
+
+def replay(ctx, rep):   # noqa: F811
+    if rep.get('case', {}).get('scenario') == 'bulkarg':
+        return common.scenario_replay(ctx, rep, {'bulkarg': bulk_argument_scenarios})
+    return _replay3(ctx, rep)
